@@ -2,7 +2,7 @@
    Statements only; proofs in Proofs/Controller.v.  [F] is any number type (Q for execution, R). *)
 From Coq Require Import ZArith List Bool Reals.
 Import ListNotations.
-From PV Require Import Base.Num Model.Controller Proofs.Controller.
+From PV Require Import Base.Num Model.Controller Proofs.Controller Proofs.Controller2.
 
 (* StopOnPlateau: continual() after a history is true iff no documented cause (budget reached,
    `patience` consecutive steps that failed to decrease by `decreasing`, rejection in the last
@@ -22,14 +22,20 @@ Theorem C20_rtb_stays_false : forall (F : Type) (NF : Num F) (c : rtb_cfg) ls mo
   rtb_cont (rtb_run c ls) = false -> rtb_cont (rtb_run c (ls ++ more)) = false.
 Proof. intros F NF. exact rtb_stays_false. Qed.
 
-(* reset restores the initial behaviour: after reset, for every future loss sequence whose first
-   (batched) loss is non-negative, every later state equals a fresh controller's (the stale
-   patience counter is overwritten by the first step because last = +inf) *)
-Theorem C20_rtb_reset_equiv_fresh : forall (c : rtb_cfg (F:=R)) (s : rtb_state) (l : list R) more,
+(* reset restores the initial state: after reset() the controller IS a fresh one (state equality), hence every later
+   observation equals a fresh controller's, for every history before and every loss sequence after *)
+Theorem C20_rtb_reset_restores_initial_state : forall (F : Type) (NF : Num F) (s : rtb_state (F:=F)), rtb_reset s = rtb_init.
+Proof. intros F NF. exact rtb_reset_is_init. Qed.
+Theorem C20_rtb_reset_equiv_fresh : forall (F : Type) (NF : Num F) (c : rtb_cfg (F:=F)) (s : rtb_state) ls,
+  rtb_run_from c (rtb_reset s) ls = rtb_run_from c rtb_init ls.
+Proof. intros F NF. exact rtb_reset_equiv_fresh. Qed.
+(* history: reset() before the repair kept the patience counter; it behaved like a fresh controller only when the
+   first loss after the reset was non-negative (see C20_rtb_reset_old_negative_loss_refuted below) *)
+Theorem C20_rtb_reset_old_equiv_fresh : forall (c : rtb_cfg (F:=R)) (s : rtb_state) (l : list R) more,
   l <> [] -> Forall (fun x => (0 <= x)%R) l ->
-  rtb_run_from c (rtb_reset s) (l :: more) = rtb_run_from c rtb_init (l :: more).
+  rtb_run_from c (rtb_reset_old s) (l :: more) = rtb_run_from c rtb_init (l :: more).
 Proof.
-  intros c s l more Hne Hpos. apply rtb_reset_equiv_fresh. now apply rtb_first_not_fail_R.
+  intros c s l more Hne Hpos. apply rtb_reset_old_equiv_fresh. now apply rtb_first_not_fail_R.
 Qed.
 Theorem C20_rtb_reset_observable : forall (F : Type) (NF : Num F) (s : rtb_state (F:=F)),
   rtb_cont (rtb_reset s) = true /\ rtb_steps (rtb_reset s) = 0%Z /\ rtb_last (rtb_reset s) = None.
@@ -46,7 +52,60 @@ Theorem C20_mpc_bound : forall (F : Type) (NF : Num F) (c : rtb_cfg) (s : rtb_st
   (Z.of_nat (fst (drive_rtb (mpc_cfg c) (rtb_reset s) ls)) <= rtb_max c)%Z.
 Proof. intros F NF. exact mpc_driver_bound. Qed.
 
+
+(* ================= strengthening round (Proofs/Controller2.v) ================= *)
+
+(* ReduceToBason, iff form over the whole history: continual() is true iff no documented cause (all losses below
+   tol, budget, `patience` consecutive failures) held at ANY step so far *)
+Theorem C20_rtb_stops_exactly_when_history : forall (F : Type) (NF : Num F) (c : rtb_cfg) (ls : list (list F)),
+  rtb_cont (rtb_run c ls) = forallb (fun k => negb (rtb_cause c (firstn k ls))) (seq 1 (length ls)).
+Proof. intros F NF. exact rtb_cont_iff. Qed.
+
+(* driver loops make EXACTLY n controller steps, n = the first step at which a documented cause holds (no cause
+   at steps 1..n-1, a cause at step n unless the loss stream ended first), and end in the state of that prefix *)
+Theorem C20_optimize_stops_exactly : forall (F : Type) (NF : Num F) (c : sop_cfg) (ins : list sop_in),
+  let n := fst (drive_sop c sop_init ins) in
+  snd (drive_sop c sop_init ins) = sop_run c (firstn n ins) /\ n <= length ins /\
+  (forall k, 1 <= k < n -> sop_cause c (firstn k ins) = false) /\
+  (n < length ins -> 1 <= n /\ sop_cause c (firstn n ins) = true).
+Proof. intros F NF. exact sop_driver_exact. Qed.
+Theorem C20_stepper_loop_stops_exactly : forall (F : Type) (NF : Num F) (c : rtb_cfg) (ls : list (list F)),
+  let n := fst (drive_rtb c rtb_init ls) in
+  snd (drive_rtb c rtb_init ls) = rtb_run c (firstn n ls) /\ n <= length ls /\
+  (forall k, 1 <= k < n -> rtb_cause c (firstn k ls) = false) /\
+  (n < length ls -> 1 <= n /\ rtb_cause c (firstn n ls) = true).
+Proof. intros F NF. exact rtb_driver_exact. Qed.
+
+(* history, reset() before the repair (rtb_reset_old): the state equals the initial one iff the patience counter happened to be 0; the first step after a
+   reset keeps counting from the stale value exactly when the loss counts as a failure against last = +inf *)
+Theorem C20_rtb_reset_old_is_initial_iff : forall (F : Type) (NF : Num F) (s : rtb_state (F:=F)),
+  rtb_reset_old s = rtb_init <-> rtb_pc s = 0%Z.
+Proof. intros F NF. exact rtb_reset_is_init_iff. Qed.
+Theorem C20_rtb_first_step_after_reset_old : forall (F : Type) (NF : Num F) (c : rtb_cfg) (s : rtb_state (F:=F)) l,
+  rtb_pc (rtb_step c (rtb_reset_old s) l) = (if all_rel None l (rtb_dec c) then rtb_pc s + 1 else 0)%Z.
+Proof. intros F NF. exact rtb_first_step_after_reset. Qed.
+(* the clause "reset restores the initial state" was FALSE of ReduceToBason before the repair for negative losses (e.g. an MPC cost
+   with a linear term): the stale patience_count survives the reset, so a used controller whose count is
+   >= patience - 1 stops at its first step, where a fresh controller continues *)
+Theorem C20_rtb_reset_old_negative_loss_refuted :
+  (forall (c : rtb_cfg (F:=R)) (s : rtb_state) (l : list R),
+     Forall (fun x => (x < 0)%R) l -> (rtb_patience c <= rtb_pc s + 1)%Z ->
+     rtb_pc (rtb_step c (rtb_reset_old s) l) = (rtb_pc s + 1)%Z /\ rtb_cont (rtb_step c (rtb_reset_old s) l) = false) /\
+  (forall (c : rtb_cfg (F:=R)) (x : R), (x < 0)%R -> (rtb_tol c <= x)%R -> (1 < rtb_max c)%Z -> (1 < rtb_patience c)%Z ->
+     rtb_cont (rtb_step c rtb_init [x]) = true) /\
+  (* a reachable instance: steps=100, patience=2, decreasing=1, tol=-100; losses 5,5,5 stop on patience; reset; loss -4 *)
+  (let c : rtb_cfg (F:=Z) := {| rtb_max := 100; rtb_patience := 2; rtb_dec := 1%Z; rtb_tol := (-100)%Z |} in
+   let used := rtb_reset_old (rtb_run c [[5]; [5]; [5]]%Z) in
+   rtb_cont (rtb_run c [[5]; [5]; [5]]%Z) = false /\ rtb_cont used = true /\
+   rtb_cont (rtb_step c used [(-4)%Z]) = false /\ rtb_cont (rtb_step c rtb_init [(-4)%Z]) = true).
+Proof.
+  split; [exact rtb_reset_negative_loss_stops | split; [exact rtb_fresh_negative_loss_continues | exact rtb_reset_witness]].
+Qed.
+
 Print Assumptions C20_sop_stops_exactly_when. Print Assumptions C20_sop_stays_false.
 Print Assumptions C20_rtb_stops_exactly_when. Print Assumptions C20_rtb_stays_false.
-Print Assumptions C20_rtb_reset_equiv_fresh. Print Assumptions C20_rtb_reset_observable.
+Print Assumptions C20_rtb_reset_equiv_fresh. Print Assumptions C20_rtb_reset_restores_initial_state. Print Assumptions C20_rtb_reset_old_equiv_fresh. Print Assumptions C20_rtb_reset_observable.
 Print Assumptions C20_optimize_bound. Print Assumptions C20_icp_bound. Print Assumptions C20_mpc_bound.
+Print Assumptions C20_rtb_stops_exactly_when_history. Print Assumptions C20_optimize_stops_exactly.
+Print Assumptions C20_stepper_loop_stops_exactly. Print Assumptions C20_rtb_reset_old_is_initial_iff.
+Print Assumptions C20_rtb_first_step_after_reset_old. Print Assumptions C20_rtb_reset_old_negative_loss_refuted.
